@@ -191,7 +191,18 @@ func liveRound(e *core.Env, round, per int, dns *svx.FakeDNS) {
 			switch r.Intn(4) {
 			case 0:
 				tc.CloseWrite()
-				io.Copy(io.Discard, io.LimitReader(tc, 4096)) // read what comes (real time, bounded by the peer closing)
+				// read what comes, for at most a second of real time: a relay that went on to dial an unreachable
+				// address keeps the connection until the kernel gives up (minutes); that wait decides nothing here
+				fin := make(chan struct{})
+				go func() { io.Copy(io.Discard, io.LimitReader(tc, 4096)); close(fin) }()
+				svx.Poll(time.Second, func() bool {
+					select {
+					case <-fin:
+						return true
+					default:
+						return false
+					}
+				})
 			case 1:
 				tc.SetLinger(0) // RST
 			}
